@@ -63,7 +63,9 @@ impl MaterializedSink {
         let meta = self
             .store
             .append_batch(self.schema_guard.snapshots(), batch)?;
-        self.high_water = meta.high_water_mark;
+        // Delta batches are a union of shard streams and may arrive out of order: the mark only ever advances.
+        self.high_water
+            .advance(meta.high_water_mark.timestamp, meta.high_water_mark.event_id);
         let rows_added = meta.row_count as u64;
         let bytes_added = meta.compressed_len as u64;
         self.total_rows = self.total_rows.saturating_add(rows_added);
@@ -109,9 +111,12 @@ impl MaterializedSink {
     }
 
     fn bootstrap_from_manifest(&mut self) {
-        if let Some(last) = self.store.frames().last() {
-            self.high_water = last.high_water_mark;
+        // The mark is the maximum over all stored frames, not the last frame's (frames are not ordered by mark).
+        let mut mark = self.high_water;
+        for frame in self.store.frames() {
+            mark.advance(frame.high_water_mark.timestamp, frame.high_water_mark.event_id);
         }
+        self.high_water = mark;
 
         self.recompute_totals();
         self.last_rows_appended = 0;
